@@ -88,6 +88,14 @@ MUTANTS = [
     ("c09_child_price_own_value", ["C09"], "bt/core.py", "            # update price\n            self._price = self._paper.price\n            self._prices.array[inow] = self._price", "            # update price\n            if is_zero(self._value):\n                self._price = self._paper.price\n            self._prices.array[inow] = self._price"),
     ("c09_paper_no_commissions", ["C09"], "bt/core.py", "            paper = deepcopy(self)\n", "            paper = deepcopy(self)\n            paper.commission_fn = paper._dflt_comm_fn\n"),
     ("c09_universe_col_lagged", ["C09"], "bt/core.py", "                self._universe.loc[date, c] = self.children[c].price", "                self._universe.loc[date, c] = self.children[c]._last_price"),
+    # ---- C16
+    ("c16_flag_without_flatten", ["C16"], "bt/core.py", "                self.bankrupt = True\n                self.flatten()", "                self.bankrupt = True"),
+    ("c16_algos_still_run", ["C16"], "bt/backtest.py", "            if not self.strategy.bankrupt:\n                self.strategy.run()", "            if True:\n                self.strategy.run()"),
+    ("c16_threshold_small_negative", ["C16"], "bt/core.py", "            if (val < 0) and not self.bankrupt and not self.fixed_income and not is_zero(val):", "            if (val < -0.2 * abs(self._last_value)) and not self.bankrupt and not self.fixed_income and not is_zero(val):"),
+    ("c16_fi_flagged", ["C16", "C17"], "bt/core.py", "            if (val < 0) and not self.bankrupt and not self.fixed_income and not is_zero(val):", "            if (val < 0) and not self.bankrupt and not is_zero(val):"),
+    ("c16_sub_flagged", ["C16"], "bt/core.py", "        if self.root == self:\n            if (val < 0)", "        if True:\n            if (val < 0)"),
+    ("c16_flatten_only_own_securities", ["C16"], "bt/core.py", "            [self.close(c.name, update=False) for c in self._childrenv if c.value != 0]", "            [self.close(c.name, update=False) for c in self._childrenv if c.value != 0 and c._issec]"),
+    ("c16_flag_next_date", ["C16"], "bt/core.py", "            if (val < 0) and not self.bankrupt and not self.fixed_income and not is_zero(val):", "            if (val < 0) and (self._value < 0) and not self.bankrupt and not self.fixed_income and not is_zero(val):"),
     # ---- C08
     ("c08_fee_reset_every_update", ["C08", "C07"], "bt/core.py", "        # update now\n        self.now = date\n        if inow is None:\n            if self.now == 0:\n                inow = 0\n            else:\n                inow = self.data.index.get_loc(date)\n\n        # update children if any and calculate value", "        # update now\n        self.now = date\n        self._last_fee = 0.0\n        if inow is None:\n            if self.now == 0:\n                inow = 0\n            else:\n                inow = self.data.index.get_loc(date)\n\n        # update children if any and calculate value"),
     ("c08_outlay_row_accumulates", ["C08", "C07"], "bt/core.py", "            self._outlays.array[inow] += self._outlay\n            # reset outlay back to 0\n            self._outlay = 0\n", "            self._outlays.array[inow] += self._outlay\n"),
